@@ -29,6 +29,7 @@ type harnessCfg struct {
 	FP         bool // harness uses floating point: prefer cvc5
 	TimeNow    string
 	seed       int64
+	Stall      bool
 }
 
 func (c *harnessCfg) valLimit() int {
@@ -232,8 +233,14 @@ func (w *worker) runPath(it *workItem) {
 					outcome = "inconclusive"
 					p.inconclusive = append(p.inconclusive, r.kind.String()+": "+r.msg)
 				case abBudget:
-					outcome = "inconclusive"
-					p.inconclusive = append(p.inconclusive, "unwinding failure: "+r.msg)
+					if cfg.Stall && !p.replaying() {
+						// candidate non-termination: confirmed (or not) by the native replay's watchdog
+						outcome = "violated"
+						i.reportViolation("stall", "decoder does not return", "", r.msg, p.model)
+					} else {
+						outcome = "inconclusive"
+						p.inconclusive = append(p.inconclusive, "unwinding failure: "+r.msg)
+					}
 				}
 			case targetPanic, runtimeError:
 				outcome = "violated"
